@@ -112,6 +112,12 @@ def output_cases():
         for errors in ("strict", "replace", "xmlcharrefreplace", "ignore", "htmlentityreplace"):
             for out_enc in (None, codec, "ascii", "utf-8"):
                 yield codec, errors, out_enc
+    # output codecs whose encoder is not a per-character map: a byte-order mark or shift state belongs to the whole
+    # document (encoding the pieces one by one and joining them gives something else)
+    for codec in ("utf-8", "latin-1", "shift_jis"):
+        for errors in ("strict", "replace"):
+            for out_enc in ("utf-16", "utf-32", "utf-8-sig", "iso2022_jp", "utf-7"):
+                yield codec, errors, out_enc
 
 
 def run_output(args):
